@@ -50,6 +50,8 @@ inductive Expr where
   | ifE (c t e : Expr)
   /-- `{key: value for target in iter}` (one `for`, no `if`; the target is a name) -/
   | dictComp (key value : Expr) (target : String) (iter : Expr)
+  /-- `[elt for target in iter]` (one generator, no condition) -/
+  | listComp (elt : Expr) (target : String) (iter : Expr)
   /-- anything else (f-strings, lambdas, comprehensions …), kept as canonical source text -/
   | other (src : String)
   deriving Repr, Inhabited
@@ -112,6 +114,9 @@ structure World (m : Type → Type) (V : Type) where
   str : String → V
   list : List V → V
   tuple : List V → V
+  /-- a list display `[a, b, …]`: a NEW list object (a world with mutable lists allocates it; the others return
+  `list vs`) -/
+  newList : List V → m V
   /-- the module-level name `n` (a global function, class, module or builtin) -/
   global : String → m V
   truthy : V → m Bool
@@ -145,6 +150,14 @@ structure World (m : Type → Type) (V : Type) where
   catchCls : {α : Type} → String → m α → m α → m α
 
 variable {m : Type → Type} [Monad m] {V : Type}
+
+/-- the elements of a list comprehension: `f` evaluates the element expression for one value of the iterable -/
+def compList (f : V → m V) : List V → m (List V)
+  | [] => pure []
+  | v :: vs => do
+    let x ← f v
+    let xs ← compList f vs
+    pure (x :: xs)
 
 /-- the pairs of a comprehension: `f` evaluates key and value for one element -/
 def compPairs (f : V → m (V × V)) : List V → m (List (V × V))
@@ -184,7 +197,7 @@ def evalExpr (w : World m V) (loc : Locals V) : Expr → m V
   | .neg e => do let a ← evalExpr w loc e; w.neg a
   | .sub e i => do let a ← evalExpr w loc e; let b ← evalExpr w loc i; w.sub a b
   | .slice lo hi => do let a ← evalExpr w loc lo; let b ← evalExpr w loc hi; pure (w.slice a b)
-  | .listE es => do let vs ← evalArgs w loc es; pure (w.list vs)
+  | .listE es => do let vs ← evalArgs w loc es; w.newList vs
   | .tupleE es => do let vs ← evalArgs w loc es; pure (w.tuple vs)
   | .fstr parts => do let vs ← evalArgs w loc parts; w.concat vs
   | .fmt e => do let v ← evalExpr w loc e; w.format v
@@ -199,6 +212,11 @@ def evalExpr (w : World m V) (loc : Locals V) : Expr → m V
       let vv ← evalExpr w (loc.set t x) v
       pure (kv, vv)) xs
     w.dict ps
+  | .listComp e t it => do
+    let iv ← evalExpr w loc it
+    let xs ← w.iter iv
+    let vs ← compList (fun x => evalExpr w (loc.set t x) e) xs
+    w.newList vs
   | .other s => w.other s
 
 /-- positional arguments, left to right; `*e` is expanded in place -/
